@@ -12,6 +12,7 @@ import (
 	"strings"
 	"sync"
 	"time"
+	"verifh/vt"
 )
 
 // VerifDir is where evidence, replays and known_findings.json live: the directory of the
@@ -93,6 +94,13 @@ func Start(id, level string) *Run {
 		distinct: map[uint64]struct{}{}, counters: map[string]int64{}, sets: map[string]map[string]struct{}{},
 		knownHit: map[string]int{}, notes: map[string]interface{}{}, maxSamples: 6}
 	r.childOut = os.Getenv("VERIF_CHILD_OUT")
+	vt.OnBusy = func(fn, frame, dump string) {
+		if i := strings.LastIndex(fn, "/"); i >= 0 {
+			fn = fn[i+1:]
+		}
+		r.Violation(r.ID+"/busy-loop/"+fn, fmt.Sprintf("the stack never goes idle: for two minutes the harness saw no activity, and two goroutine dumps five seconds apart show the same goroutine running in %s (%s) - the code under test spins", fn, frame), map[string]interface{}{"function": fn, "frame": frame})
+		os.Exit(r.Finish("(aborted: the code under test spins)", nil))
+	}
 	if b, err := os.ReadFile(filepath.Join(VerifDir, "known_findings.json")); err == nil {
 		var kf knownFile
 		if json.Unmarshal(b, &kf) == nil {
